@@ -10,7 +10,18 @@ use serde_json::json;
 
 const BOOKKEEPING: &[&[u8]] = &[b"Size", b"Prev", b"Type", b"W", b"Index", b"Length", b"Filter", b"DecodeParms"];
 
+/// the second, independent strict reader (Lean, `Spec/Strict.lean`, driver op `strict`) must reach
+/// the same verdict, revision count, object count, version and cross-reference-stream count
+pub fn strict_twin(c: &mut Ctx, bytes: &[u8]) {
+    let reply = match guard(|| strict_load(bytes)) {
+        Ok(Ok(sd)) => format!("ok {} {} {} {}", sd.revisions, sd.objects.len(), hex_tok(&sd.version), sd.xref_stream_ids.len()),
+        _ => "err".to_string(),
+    };
+    c.corr(format!("strict {}", hex_tok(bytes)), reply);
+}
+
 pub fn check_strict(c: &mut Ctx, before: &Document, bytes: &[u8], kind: &str, tag: &str) {
+    strict_twin(c, bytes);
     match guard(|| strict_load(bytes)) {
         Ok(Ok(sd)) => {
             if sd.version != before.version.as_bytes() { c.oracle_fail("strict:version", "version differs", json!({"file": hex(bytes)})); }
@@ -59,6 +70,7 @@ fn incremental(c: &mut Ctx) {
                 c.corr(req.clone(), format!("ok {} {} {}", hex_tok(&out), inc.new_document.max_id, show_obj(&Object::Dictionary(inc.new_document.trailer.clone()))));
                 c.nontrivial(&req);
                 c.count(if stream { "incr.xref_stream" } else { "incr.xref_table" });
+                strict_twin(c, &out);
                 match guard(|| strict_load(&out)) {
                     Ok(Ok(sd)) => {
                         if sd.revisions != 2 { c.oracle_fail("strict:revisions", &format!("strict reader sees {} revisions, expected 2", sd.revisions), json!({"file": hex(&out)})); }
